@@ -555,8 +555,9 @@ def counters_rule(ck, facts):
                         incs.append(bi)
             edge = try_success_edge(c, call)
             ok = False
-            if incs and edge:
-                for cand in sorted(c.reachable(edge[1])):
+            if incs:
+                # `?` form: the flag is the Continue payload; match form: the flag is the payload of the Ok arm
+                for cand in sorted(c.reachable(edge[1] if edge else call["to"])):
                     bs = bool_switch(c, cand)
                     if bs:
                         src = comes_from_call(c, c.blocks[cand]["t"]["on"], r"Mutable(Graph|Dataset)>?::(insert|remove)_?(triple|quad)?$",
